@@ -954,7 +954,7 @@ where
             match message[0] as char {
                 // Query
                 'Q' => {
-                    if query_router.query_parser_enabled() {
+                    if query_router.should_parse() {
                         match query_router.parse(&message) {
                             Ok(ast) => {
                                 let plugin_result = query_router.execute_plugins(&ast).await;
@@ -973,7 +973,9 @@ where
                                     _ => (),
                                 };
 
-                                let _ = query_router.infer(&ast);
+                                if query_router.query_parser_enabled() {
+                                    let _ = query_router.infer(&ast);
+                                }
 
                                 initial_parsed_ast = Some(ast);
                             }
@@ -996,7 +998,7 @@ where
                 // to when we get the S message
                 // Parse
                 'P' => {
-                    if query_router.query_parser_enabled() {
+                    if query_router.should_parse() {
                         match query_router.parse(&message) {
                             Ok(ast) => {
                                 if let Ok(output) = query_router.execute_plugins(&ast).await {
@@ -1006,7 +1008,9 @@ where
                                     }
                                 }
 
-                                let _ = query_router.infer(&ast);
+                                if query_router.query_parser_enabled() {
+                                    let _ = query_router.infer(&ast);
+                                }
                             }
                             Err(error) => {
                                 warn!(
@@ -1304,7 +1308,7 @@ where
 
                     // Query
                     'Q' => {
-                        if query_router.query_parser_enabled() {
+                        if query_router.should_parse() {
                             // We don't want to parse again if we already parsed it as the initial message
                             let ast = match initial_parsed_ast {
                                 Some(_) => Some(initial_parsed_ast.take().unwrap()),
@@ -1382,7 +1386,7 @@ where
                     // Parse
                     // The query with placeholders is here, e.g. `SELECT * FROM users WHERE email = $1 AND active = $2`.
                     'P' => {
-                        if query_router.query_parser_enabled() {
+                        if query_router.should_parse() {
                             if let Ok(ast) = query_router.parse(&message) {
                                 if let Ok(output) = query_router.execute_plugins(&ast).await {
                                     // A later Parse of the same batch must not lift a denial.
